@@ -24,7 +24,7 @@ CLAIMS = {
             'trusted: as C01 plus Path helper expressions moved into external_body helpers with assumed contracts', '§5-C17'),
     'C18': ('proof', 'The offered-set algebra of completion is proved exactly: filter_and_enrich_fixtures returns available filtered by !excluded in order, is_fixture_excluded/should_exclude_fixture/fixture_sort_priority equal their specs (self/cls, declared params, current fixture, narrower scope; same-file 0 < project 1 < plugin 2 < third-party 3); lemmas: every name once, excluded never offered. The AST path of get_completion_context (get_func_context, get_function_completion_context, check_decorator_context, cursor_inside_usefixtures_call) is proved exactly: first enclosing test/fixture function in statement order incl. class recursion, declared_params = all parameter kinds, scope of the first scoped fixture decorator; the text fallback is uninterpreted.',
             'trusted: extractor incl. //@item, format! builders uninterpreted, derive(PartialOrd) via Kani', '§5-C18'),
-    'C19': ('proof', 'Config::from_raw is proved to keep exactly the valid diagnostic codes and valid glob patterns element-wise (order preserved, other settings passed through) and is_diagnostic_disabled to be membership; lemmas: bad entries are ignored individually, settings are independent. The publish path and TOML parsing are not covered.',
+    'C19': ('proof', 'Config::from_raw is proved to keep exactly the valid diagnostic codes and valid glob patterns element-wise (order preserved, other settings passed through) and is_diagnostic_disabled to be membership; lemmas: bad entries are ignored individually, settings are independent. Config::load and Config::parse are under contract: the configuration is a function of the whole pyproject.toml text, defaults when the file is missing, unreadable or does not parse (no panic; lemma: under the defaults no code is disabled). Every analysis moves the version that keys the diagnostic caches (unit analyze); closing / evicting touches no index map (unit memo). The publish handler and the TOML library are not covered.',
             'trusted: glob::Pattern::new abstract, slice::contains / String==str / filter_map wrapper assumed', '§5-C19'),
     'C05': ('proof', 'compute_available_fixtures (ten hash-ordered loops, the conftest walk, the final sort) is proved against avail_post: sorted by name, one entry per name, every entry is avail_pick of its name (soundness) and every visible name has an entry (completeness); resolve_fixture_for_file == op_resolve_ff; lemmas: the per-file view agrees with go-to-definition (op_resolve) whenever the file defines the name at most once and the import tests agree — the hypotheses are exactly the known findings F-05a (same-file redefinition: first vs last) and F-05b (resolve_fixture_for_file is a different resolver).',
             'trusted: as C01 plus sort/Path specs; the handlers\' choice of resolver is a table, not proved', '§5-C05'),
